@@ -200,12 +200,20 @@ func Plan(list []Entry, packager string, umask os.FileMode, pkgMTime time.Time, 
 			pe := PEntry{Dst: NormPath(e.Dst), Kind: e.Type, Owner: o, Group: g, Mode: e.Mode, MTime: firstTime(e.MTime, pkgMTime)}
 			if e.Src != "" {
 				n := t.Get(e.Src)
+				// these kinds are read through the source path: a symbolic link on the build host is followed
+				for hops := 0; n != nil && n.Kind == "symlink" && hops < 8; hops++ {
+					if path.IsAbs(n.Target) {
+						n = nil
+						break
+					}
+					n = t.Get(path.Join(path.Dir(n.Rel), n.Target))
+				}
 				if n == nil || n.Kind != "file" {
 					if e.Type != "ghost" {
 						return PlanResult{OtherErr: "missing source " + e.Src}
 					}
 				} else {
-					pe.Src = n.Rel
+					pe.Src = path.Clean(e.Src)
 					pe.Size = int64(len(n.Data))
 					pe.SHA256 = n.SHA256()
 					if pe.Mode == 0 {
